@@ -292,6 +292,11 @@ func genValue(rt *rapid.T, t reflect.Type, o ValOpts, depth int) Recipe {
 		if (isRecursive(t.Elem()) || isRecursive(t)) && depth/2 >= o.Depth {
 			n = 0
 		}
+		if t.Key() == Corpus["KPS"] && n > 1 {
+			// keys are distinct by pointer identity but can have the same text: the order of such members is
+			// unspecified in both libraries
+			n = 1
+		}
 		r := Recipe{}
 		for i := 0; i < n; i++ {
 			kr := genValue(rt, t.Key(), o, depth+1)
